@@ -206,4 +206,31 @@ def tokOf : List FEv → List FEv
   | .other (.xmlDecl v e sa) :: es => .other (.xmlDecl v e sa) :: wsTok :: tokOf es
   | e :: es => normF e :: tokOf es
 
+/-! ### what an encoding must be able to represent
+
+`encode` can only fall back to character references in character data and
+attribute values.  `repMarkup rep fs`: every character that the serializer
+writes *outside* those places — names, comments, PIs, CDATA sections (and
+`Markup` text), declaration, DOCTYPE — is representable. -/
+
+def repOpt (rep : Char → Bool) : Option Str → Bool
+  | some s => s.all rep
+  | none => true
+
+def repMarkupGo (rep : Char → Bool) : Bool → List FEv → Bool
+  | _, [] => true
+  | c, .start n a :: es => n.all rep && a.all (fun x => x.1.all rep) && repMarkupGo rep c es
+  | c, .empty n a :: es => n.all rep && a.all (fun x => x.1.all rep) && repMarkupGo rep c es
+  | c, .end_ n :: es => n.all rep && repMarkupGo rep c es
+  | c, .other (.text s safe) :: es => (!(c || safe) || s.all rep) && repMarkupGo rep c es
+  | c, .other (.comment s) :: es => s.all rep && repMarkupGo rep c es
+  | c, .other (.pi t d) :: es => t.all rep && d.all rep && repMarkupGo rep c es
+  | _, .other .startCdata :: es => repMarkupGo rep true es
+  | _, .other .endCdata :: es => repMarkupGo rep false es
+  | c, .other (.xmlDecl v e _) :: es => v.all rep && repOpt rep e && repMarkupGo rep c es
+  | c, .other (.doctype n p s) :: es => n.all rep && repOpt rep p && repOpt rep s && repMarkupGo rep c es
+  | c, _ :: es => repMarkupGo rep c es
+
+def repMarkup (rep : Char → Bool) (fs : List FEv) : Bool := repMarkupGo rep false fs
+
 end Genshi.Xml
